@@ -14,7 +14,8 @@ import numpy as np
 from mc import schemas as S
 from cr.cube.cube import Cube
 
-from mc.common2d import Reg, SignedSlice, reverse_read, std_pairings, subtotal, transforms_for
+from mc.common2d import (SCALES, Reg, SignedSlice, reverse_read, scale_invariant, scaled_parts, std_pairings, subtotal,
+                         transforms_for)
 from mc.compare import arr_bytes, first_diff
 from mc.engine import Res, digest, viol
 from mc.model import Schema, tabulate
@@ -143,7 +144,17 @@ def check(space, state):
             V.append(viol(name + ":negative", "%s has a negative value" % name, output=name))
 
     fresh = Cube(tabulate(sch, data), transforms=transforms_for(cfg)).partitions
+    scaled = {e: scaled_parts(sch, data, cfg, e) for e in SCALES} if (sch.weighted and data) else {}
     for pidx, (part, (kind, _lbl, orc)) in enumerate(zip(cube.partitions, oracles)):
+        for e, sp in scaled.items():
+            if kind == "strand":
+                asserted += scale_invariant(V, ["table_proportion_stddevs"], part, sp[pidx], e)
+                asserted += scale_invariant(V, ["table_proportion_stderrs", "table_proportion_moes"], part, sp[pidx], e, power=-0.5)
+            else:
+                asserted += scale_invariant(V, ["%s_%s" % (d_, n_) for d_ in ("row", "column", "table")
+                                                for n_ in ("proportion_variances", "std_dev")], part, sp[pidx], e)
+                asserted += scale_invariant(V, ["%s_%s" % (d_, n_) for d_ in ("row", "column", "table")
+                                                for n_ in ("std_err", "proportions_moe")], part, sp[pidx], e, power=-0.5)
         if kind == "strand":
             rows = orc.rows
             from mc.common2d import resolve_insertions
